@@ -1,6 +1,7 @@
 mod capture;
 mod cfgsuite;
 mod codec;
+mod concsuite;
 mod gen_codec;
 mod gen;
 mod pairsuite;
@@ -37,6 +38,7 @@ fn run_cases(cases: &str, out: &str, dir: &str) {
             "win" => winsuite::run_win(&toks, &dir),
             "srv" => srvsuite::run_srv(&toks, &dir),
             "pair" => pairsuite::run_pair(&toks, &dir, &mut cap),
+            "conc" => concsuite::run_conc(&toks, &dir),
             "cfg" => cfgsuite::run_cfg(&toks),
             "cfgperm" => cfgsuite::run_cfgperm(&toks),
             "ccfg" => cfgsuite::run_ccfg(&toks),
